@@ -108,6 +108,16 @@ def run(ctx):
         ctx.obligation("corr_csmc_model_eq_impl_%d_rows" % len(items), not bad)
         if bad:
             ctx.broken[-1]["detail"] = {"failing": len(bad), "first": desc[bad[0]]}
+    # ---- the grammar model (state space and retained paths), premise (i) of the assembled theorem
+    gitems, gdesc = C01corr.grammar_items(ctx)
+    ok, bad, detail = coq.coq_eval_bool_cases(ctx, "gram", "From PV Require Import Model.GrammarCases Proofs.GrammarPG.\nOpen Scope nat_scope.", gitems, shard=25)
+    ctx.extra["coq_grammar_cases"] = len(gitems)
+    if not ok:
+        ctx.broken_tie("C01 grammar correspondence file did not evaluate", detail)
+    else:
+        ctx.obligation("corr_grammar_state_space_and_retained_paths_%d_items" % len(gitems), not bad)
+        if bad:
+            ctx.broken[-1]["detail"] = {"failing": len(bad), "first": gdesc[bad[0]]}
     ctx.assumptions += [
         "the enumerating generator visits every outcome of each numpy call with numpy's probability",
         "float round-off of the exact matrices is below 1e-12 on the small-rational inputs used (observed 1e-16)",
